@@ -208,7 +208,8 @@ type Spec struct {
 	RealBcrypt      bool
 	SecretClientsOK bool
 	// FositeSession: sessions created through World.Sess are fosite's own openid.DefaultSession instead of the
-	// harness type (only without JWT access tokens, which need a JWTSessionContainer).
+	// harness type; with JWT access tokens (which need a JWTSessionContainer) they are fosite's oauth2.JWTSession,
+	// which is no OpenID Connect session: such a world serves plain OAuth 2.0 requests only (see World.NoOIDC).
 	FositeSession bool
 	// LegacyRevocationHandler puts a second revocation handler, over an empty store of its own, in front of the real
 	// one (an operator migrating between stores): it knows none of the tokens and answers accordingly.
@@ -380,7 +381,14 @@ func NewWorld(sp Spec) *World {
 // Sess returns a fresh session for the integrator to hand to fosite: the harness type, or fosite's own
 // openid.DefaultSession when the world was built with FositeSession.
 func (w *World) Sess(subject string) fosite.Session {
-	if w.Spec.FositeSession && !w.Spec.JWTAccess {
+	if w.NoOIDC() {
+		return &oauth2.JWTSession{
+			JWTClaims: &jwt.JWTClaims{Subject: subject, Extra: map[string]interface{}{}},
+			JWTHeader: &jwt.Headers{Extra: map[string]interface{}{}},
+			Subject:   subject,
+		}
+	}
+	if w.Spec.FositeSession {
 		now := Now().UTC()
 		return &openid.DefaultSession{
 			Claims:  &jwt.IDTokenClaims{Subject: subject, RequestedAt: now, AuthTime: now},
@@ -390,6 +398,9 @@ func (w *World) Sess(subject string) fosite.Session {
 	}
 	return NewSess(subject)
 }
+
+// NoOIDC reports whether the sessions of this world cannot carry ID-token claims (fosite's oauth2.JWTSession).
+func (w *World) NoOIDC() bool { return w.Spec.FositeSession && w.Spec.JWTAccess }
 
 func (w *World) ResetCalls() { w.Calls = nil; w.W.ResetSeq() }
 
